@@ -332,6 +332,21 @@ def main_for(prop, roots, repo_path, tier, seed):
             'domain_words': B.count(rm.part.domain, iv),
             'class_words': sum(B.count(r, iv) for r in rm.part.classes.values()),
             'leaves': len(rm.part.classes), 'decoder_arms': len(rm.part.arms)}
+    # A4 (purity, continued): the decode layer and the helpers it calls keep no state of their own (a memo keyed on
+    # part of the inputs makes decode depend on history), and a cycle decodes the word it fetched (no per-CPU memo).
+    from . import c20
+    tmp = Run('tmp')
+    c20.check_shared_state(tmp, repo)
+    c20.check_pipeline(tmp, repo)
+    npur = 0
+    for f in tmp.findings:
+        if f.rule == 'C20-P' or '/opcodes/' in f.file or f.file.endswith(('shift.py', 'bits_ops.py')):
+            npur += 1
+            run.violation('%s-A4' % prop, f.file, f.func, f.construct,
+                          'decode must depend on the instruction word (and the architectural IT / carry state) only: ' + f.message)
+    run.instance('%s-A4' % prop, 'decode-layer statelessness', obligations=2, ok=(npur == 0),
+                 sample={'rule': 'no run-time write to module/class-level state in decoders, encodings, bits_ops, shift; '
+                                 'emulate_cycle executes from_bitarray(decode(fetch()))'})
     run_controls(run, repo_path, prop, roots)
     if tier == 'thorough':
         from . import decode_mutants
